@@ -180,9 +180,12 @@ class Pipeline(object):
         I = self.interp
         calls = self.calls
         bic = self.bicomplex
-        xatoms = {repr(x) for x in xs}
+        self.base_xs = list(xs)
+        P = self
 
         def user_f(arg, *extra, **kw):
+            xs = P.base_xs                       # the point of the current call (set_point)
+            xatoms = {repr(x) for x in xs}
             if extra_check is not None:
                 extra_check(extra, kw)
             where = I.where()
@@ -219,6 +222,10 @@ class Pipeline(object):
                 return o
             return FV.atom(key, 'A')
         return user_f
+
+    def set_point(self, x):
+        """Declare the point at which the next call is made (offsets of the evaluations are taken from it)."""
+        self.base_xs = x.items() if isinstance(x, Arr) else [x]
 
     def clear_cache(self):
         """Restore the rule cache to its import-time content (normally empty)."""
